@@ -217,9 +217,8 @@ impl<'a> Dfa<'a> {
                         w.remove(idx);
                         w.push(i);
                         w.push(d);
-                    } else if i.len() <= d.len() {
-                        w.push(i);
                     } else {
+                        w.push(i);
                         w.push(d);
                     }
                 }
